@@ -601,9 +601,38 @@ def install(I):
         else:
             d.pres, d.val = np, nv
 
+    def bmc_world(I):
+        w = I.path.ghost.get('bmc')
+        return w if (w is not None and w.cur is not None) else None
+
+    def ds_name(I, w, d):
+        name = w.obj('ds', id(d), init=(d.pres, d.val))
+        return name
+
     def ds_get(I, args, ins):
         d, ctx, k = args
         kt = keyterm(I, k)
+        w = bmc_world(I)
+        if w is not None:
+            from .. import bmc
+            typed = getattr(I, 'ds_typed', None)
+            shape = typed(I, kt) if typed else None
+            if shape is not None:
+                # harness-declared datastore invariant for this key family: present and of the given shape. The read returns
+                # a value of that shape without forking; that the shared state really satisfies the invariant at the step
+                # the read executes is a separate obligation of the BMC (state assertion), not an assumption.
+                val = shape
+                name = ds_name(I, w, d)
+                bmc.rec(I, 'sassert', name, (lambda st, name=name, kt=kt: z3.Select(st[name + '.pres'], kt),), ins=ins,
+                        label='datastore invariant: the entry read under the declared key family is present')
+                bmc.rec(I, 'dsget', name, (kt,), res=(z3.BoolVal(True), val), ins=ins)
+                return (bytes_value(I, val), None)
+            pres = I.fresh_bool('ds.present')
+            val = I.fresh_term('ds.value')
+            bmc.rec(I, 'dsget', ds_name(I, w, d), (kt,), res=(pres, val), ins=ins)
+            if not I.fork_bool(pres, 'ds.Get'):
+                return (None, sentinel(I, D + 'ErrNotFound'))
+            return (bytes_value(I, val), None)
         present = simp_bool(z3.Select(d.pres, kt))
         if not I.fork_bool(present, 'ds.Get'):
             return (None, sentinel(I, D + 'ErrNotFound'))
@@ -613,11 +642,23 @@ def install(I):
 
     def ds_has(I, args, ins):
         d, ctx, k = args
+        w = bmc_world(I)
+        if w is not None:
+            from .. import bmc
+            pres = I.fresh_bool('ds.present')
+            val = I.fresh_term('ds.value')
+            bmc.rec(I, 'dsget', ds_name(I, w, d), (keyterm(I, k),), res=(pres, val), ins=ins)
+            return (pres, None)
         return (simp_bool(z3.Select(d.pres, keyterm(I, k))), None)
 
     def ds_put(I, args, ins):
         d, ctx, k, v = args
         kt, vt = keyterm(I, k), I.bytes_term(v)
+        w = bmc_world(I)
+        if w is not None:
+            from .. import bmc
+            bmc.rec(I, 'dsmut', ds_name(I, w, d), ((('put', kt, vt),),), ins=ins)
+            return None
         ds_mutate(I, d, lambda p, a: (z3.Store(p, kt, z3.BoolVal(True)), z3.Store(a, kt, vt)))
         d.log.append(('put', kt, vt))
         return None
@@ -625,6 +666,11 @@ def install(I):
     def ds_delete(I, args, ins):
         d, ctx, k = args
         kt = keyterm(I, k)
+        w = bmc_world(I)
+        if w is not None:
+            from .. import bmc
+            bmc.rec(I, 'dsmut', ds_name(I, w, d), ((('del', kt, None),),), ins=ins)
+            return None
         ds_mutate(I, d, lambda p, a: (z3.Store(p, kt, z3.BoolVal(False)), a))
         d.log.append(('del', kt, None))
         return None
@@ -649,6 +695,11 @@ def install(I):
         b, ctx = args
         ops = list(b.ops)
         b.ops = []
+        w = bmc_world(I)
+        if w is not None:
+            from .. import bmc
+            bmc.rec(I, 'dsmut', ds_name(I, w, b.ds), (tuple(ops),), ins=ins)
+            return None
 
         def fn(p, a):
             for (op, kt, vt) in ops:
@@ -747,6 +798,25 @@ def install(I):
 
     N['verif_honestKey'] = v_honest_key
     N['verif_secretSymKey'] = v_secret_sym
+
+    def v_crash_index(I, args, ins):
+        k = I.fresh_int('crash-index')
+        I.add(k >= 0)
+        I.register_input('crash-index(kappa)', k)
+        I.path.ghost['crash_index'] = k
+        I.path.ghost['crash_base'] = I.path.ghost.get('mut_count', 0)
+        return k
+
+    def v_mut_count(I, args, ins):
+        return I.path.ghost.get('mut_count', 0)
+
+    def v_crash_off(I, args, ins):
+        I.path.ghost['crash_index'] = None
+        return None
+
+    N['verif_crashIndex'] = v_crash_index
+    N['verif_mutCount'] = v_mut_count
+    N['verif_restart'] = v_crash_off
 
     def v_context(I, args, ins):
         return Iface(-20, Native('ctx', cancelled=False, as_iface=True))
